@@ -69,9 +69,12 @@ def plan(tier, seed):
         tasks.append(('roundtrip', {'files': [{'t': 0, 'entries': [3]}], 'big': True}))
     n3 = 5 if tier == 'quick' else 7
     for n in range(0, n3 + 1):
-        tasks.append(('parse_total', {'n': n, 'tail': False}))
-        if n <= n3 - 1:
-            tasks.append(('parse_total', {'n': n, 'tail': True}))
+        # long texts are split by their first byte so that the pool can share them
+        firsts = [None] if n < 6 else list(R3_ALPHABET)
+        for fb in firsts:
+            tasks.append(('parse_total', {'n': n, 'tail': False, 'first': fb}))
+            if n <= n3 - 1:
+                tasks.append(('parse_total', {'n': n, 'tail': True, 'first': fb}))
     for ti in (0, 1, 3):
         tasks.append(('remap', {'files': [{'t': ti, 'entries': [1]}], 'big': False, 'tlen': 8}))
     for tlen in (0, 2, 4, 8):
@@ -283,6 +286,8 @@ def ob_parse_total(h, shape):
     P = h.P
     n = shape['n']
     bs = [h.byte_in('t%d' % i, R3_ALPHABET) for i in range(n)]
+    if shape.get('first') is not None and n:
+        bs[0] = shape['first']
     full = list(bs)
     if shape['tail']:
         full += list(b'\n---\n{}')
